@@ -13,20 +13,20 @@ PY = "/venv/bin/python"
 CLAIMS = {
     "C01": (
         "DESIGN.md §3 C01",
-        "whole-program points-to/effect analysis (who-may-write over all in-place write sites), dominance + def-use over the group-step CFG, region-exhaustive evaluation of the refresh-schedule predicate, wiring of per-step hyperparameters",
-        "Static necessary conditions of the update rule, decided for every path/call site of the current tree: (1) no in-place write can reach a state tensor outside that state's own recurrence (this is how the SGD-grafting corruption of the gradient EMA was found); (2) the stages of one group step are ordered by their data dependences and one direction list flows through them, scaled by -lr and applied last; (3) the refresh predicate equals the documented schedule on the post-increment group step and the amortized computation runs only under it; (4) the group step counter is incremented exactly once by 1 and registered per group in optimizer state; (5) per-step hyperparameters are read from the loop's param group and reach the matching formal. NOT decided: the arithmetic of each recurrence (coefficients, exponents, bias-correction terms, contraction indices).",
+        "whole-program points-to/effect analysis (who-may-write over all in-place write sites), dominance + def-use over the group-step CFG, region-exhaustive evaluation of the refresh-schedule predicate, wiring of per-step hyperparameters, term-valued abstract interpretation of the recurrences compared as exact rational functions",
+        "Static necessary conditions of the update rule, decided for every path/call site of the current tree: (1) no in-place write can reach a state tensor outside that state's own recurrence (this is how the SGD-grafting corruption of the gradient EMA was found); (2) the stages of one group step are ordered by their data dependences and one direction list flows through them, scaled by -lr and applied last; (3) the refresh predicate equals the documented schedule on the post-increment group step and the amortized computation runs only under it; (4) the group step counter is incremented exactly once by 1 and registered per group in optimizer state; (5) per-step hyperparameters are read from the loop's param group and reach the matching formal; (6) the arithmetic of the recurrences: the whole group step with its helpers inlined (384 flag cases), the diagonal accumulator, the Kronecker-factor accumulation and the inverse-root refresh are interpreted on a representative block element with symbolic inputs and compared with the documented formulas as exact rational functions (term-valued abstract interpretation; matrix routines, tensordot and norms are uninterpreted). NOT decided: the numerics inside matrix_inverse_root / eigh (C10-C12), the mode-wise contraction of _precondition_grad, floating-point evaluation order.",
         "Trusts the torch operation table in sv/tables.py (in-place / view / maybe-copy / fresh); points-to is a may-analysis (k=1 call strings quick, k=2 thorough) and can only err towards reporting.",
     ),
     "C02": (
         "DESIGN.md §3 C02",
-        "first-match evaluation of the grafting dispatch with symbolic payload interpretation, region-exhaustive evaluation of the phase-switch predicate, def-use / dominance analysis of the norm-transfer code",
-        "Static: each grafting config class maps to the documented (list class, beta2, epsilon, bias-correction) payload and unknown classes raise; use_grafting_method equals (incremented step < start and grafting configured); both methods precondition the same input, the Shampoo result is rescaled in place by norm(graft)/(norm(shampoo)+tiny) with the roles in that order, only after warm-up, and the grafting accumulator is updated whenever grafting is configured. NOT decided: equality of trajectories with torch.optim.* and exact norm equality (numerical), and the arithmetic inside the diagonal preconditioner.",
+        "first-match evaluation of the grafting dispatch with symbolic payload interpretation, region-exhaustive evaluation of the phase-switch predicate, def-use / dominance analysis of the norm-transfer code, term-valued abstract interpretation of the diagonal preconditioner and the group step",
+        "Static: each grafting config class maps to the documented (list class, beta2, epsilon, bias-correction) payload and unknown classes raise; use_grafting_method equals (incremented step < start and grafting configured); both methods precondition the same input, the Shampoo result is rescaled in place by norm(graft)/(norm(shampoo)+tiny) with the roles in that order, only after warm-up, and the grafting accumulator is updated whenever grafting is configured. The arithmetic of the grafted method (accumulator, bias correction, G/(sqrt(V/bc2)+eps)) and of the norm transfer inside the group step is compared with the documented formulas as exact rational functions. NOT decided: bitwise equality of trajectories with torch.optim.* (floating-point evaluation order).",
         "Trusts Python/torch semantics of the foreach norm/div/mul primitives.",
     ),
     "C03": (
         "DESIGN.md §3 C03",
-        "dominance / guard-agreement analysis of the SOAP list (refresh-then-accumulate, rotate/divide/rotate-back pairing), who-may-write (points-to) for basis and accumulator, dtype-tag flow over allocations, rotation and QR paths, exactness of the diagonal flag",
-        "Static: the basis refresh precedes the (unconditional) corrected-eigenvalue update; precondition() rotates, divides and rotates back with the same basis, selector and guard and the transposed contraction, under the same basis-exists predicate as the accumulator update; ignored dims are only permuted; the basis is refreshed only under the schedule flag and written only by its refresh; factors are allocated in the preconditioner dtype and everything contracted with gradients in the parameter dtype, and every same-dtype operation on the QR path has equal dtype tags (the rule that found the QR dtype defect); the diagonal flag is exact. NOT decided: orthonormality, diagonalisation, that QR yields the orthogonal-iteration update (numerical).",
+        "dominance / guard-agreement analysis of the SOAP list (refresh-then-accumulate, rotate/divide/rotate-back pairing), who-may-write (points-to) for basis and accumulator, dtype-tag flow over allocations, rotation and QR paths, exactness of the diagonal flag, term-valued abstract interpretation of the SOAP and QR recurrences",
+        "Static: the basis refresh precedes the (unconditional) corrected-eigenvalue update; precondition() rotates, divides and rotates back with the same basis, selector and guard and the transposed contraction, under the same basis-exists predicate as the accumulator update; ignored dims are only permuted; the basis is refreshed only under the schedule flag and written only by its refresh; factors are allocated in the preconditioner dtype and everything contracted with gradients in the parameter dtype, and every same-dtype operation on the QR path has equal dtype tags (the rule that found the QR dtype defect); the diagonal flag is exact; the SOAP accumulator, the rotate-divide-rotate-back formula, the factor accumulation and one orthogonal (QR) iteration with its relative-change stopping rule and Rayleigh-quotient ordering equal the documented formulas as exact terms (rotations / qr / einsum uninterpreted). NOT decided: orthonormality and diagonalisation of what eigh / qr return (numerical).",
         "Trusts the same-dtype operation table (matmul, tensordot, einsum ...) and the torch operation table.",
     ),
     "C04": (
@@ -38,7 +38,7 @@ CLAIMS = {
     "C05": (
         "DESIGN.md §3 C05",
         "points-to with strict polarity (blocks must alias parameter storage through view-only operations), call-site agreement of the parameter and gradient blocking recipes, who-may-write for parameters, structural check of multi_dim_split / compress_list",
-        "Static: every parameter block of every distributor aliases exactly the parameter storage (a maybe-copy op such as reshape/contiguous/clone on the chain is reported), gradient blocks alias the gradients, gradients are viewed with the stored merged dims and split with the same size expression, parameters are written in place only by update_params, multi_dim_split is a single fold over every dimension with torch.split as the only producer and no early exit, compress_list is an order-preserving selection. NOT decided: merge_small_dims arithmetic, exact-once coverage, row-major order, the size bound, and the invariance 'optimising blocks = optimising separate parameters'.",
+        "Static: every parameter block of every distributor aliases exactly the parameter storage (a maybe-copy op such as reshape/contiguous/clone on the chain is reported), gradient blocks alias the gradients, gradients are viewed with the stored merged dims and split with the same size expression, parameters are written in place only by update_params, multi_dim_split is a single fold over every dimension with torch.split as the only producer and no early exit, compress_list is an order-preserving selection, merge_small_dims fuses the next dim into the last merged dim iff the product stays <= threshold. NOT decided: exact-once coverage, row-major order, the size bound, and the invariance 'optimising blocks = optimising separate parameters'.",
         "Trusts the torch view / maybe-copy operation table.",
     ),
     "C06": (
@@ -67,14 +67,14 @@ CLAIMS = {
     ),
     "C10": (
         "DESIGN.md §3 C10",
-        "dispatch-table evaluation of matrix_inverse_root with argument/field forwarding checks, interpretation of the convergence-flag expressions, dominance analysis of the higher-order solver's guards, def-use discipline of the regularised input",
-        "Static control-structure conditions only (the weakest claimed property): each config class reaches exactly one solver arm forwarding A, root (numerator only under a denominator == 1 check), epsilon and the config fields; fast paths come first; CONVERGED is produced only by an expression that holds iff the last |M-I| residual <= tolerance; the higher-order residual guard is recomputed unconditionally from the returned X and, with the NaN/Inf guard, dominates the return; the tf32 flag is restored in finally; after the ridge matrix is formed the raw input is not read again; the diagonal flag is exact. NOT decided: every accuracy bound, agreement of fast paths with the general path.",
+        "dispatch-table evaluation of matrix_inverse_root with argument/field forwarding checks, interpretation of the convergence-flag expressions, dominance analysis of the higher-order solver's guards, def-use discipline of the regularised input, term-valued abstract interpretation of the Newton / eigen / fast-path formulas",
+        "Static control-structure conditions only (the weakest claimed property): each config class reaches exactly one solver arm forwarding A, root (numerator only under a denominator == 1 check), epsilon and the config fields; fast paths come first; CONVERGED is produced only by an expression that holds iff the last |M-I| residual <= tolerance; the higher-order residual guard is recomputed unconditionally from the returned X and, with the NaN/Inf guard, dominates the return; the tf32 flag is restored in finally; after the ridge matrix is formed the raw input is not read again; the diagonal flag is exact; the coupled Newton initialisation and iteration, the eigen solver's formula and the diagonal / 1-element fast paths equal their documented formulas as exact terms (matrix products uninterpreted). NOT decided: every accuracy bound (conditioning, tolerance, float32 exponent), the higher-order solver's coefficients (protected only by its residual guard).",
         "Accuracy is numerical and out of reach of this technique family.",
     ),
     "C11": (
         "DESIGN.md §3 C11",
         "dominance analysis of shape / root guards over every solver call, scalar-shadow interpretation of the eigenvalue update on a grid covering every linear piece, try/except shape analysis of the double-precision retry",
-        "Static: non-2-D and non-square inputs with more than one element are rejected on every path to any solver (including the diagonal fast path); the positive-root guard dominates the power; on both enhance_stability branches every eigenvalue becomes lambda - min(lambda_min, 0) + epsilon before the power (the mechanism that keeps powered values >= epsilon > 0), with lambda_min taken from the same eigenvalues; a decomposition failure is retried in double precision only under the flag and a non-float64 dtype, otherwise re-raised. NOT decided: finiteness, symmetry, the eigenvalue bound, commutation, equivariance (numerical).",
+        "Static: non-2-D and non-square inputs with more than one element are rejected on every path to any solver (including the diagonal fast path); the positive-root guard dominates the power; on both enhance_stability branches every eigenvalue becomes lambda - min(lambda_min, 0) + epsilon before the power (the mechanism that keeps powered values >= epsilon > 0), with lambda_min taken from the same eigenvalues; a decomposition failure is retried in double precision only under the flag and a non-float64 dtype, otherwise re-raised; X is assembled as (Q * lambda^(-1/root)) @ Q^T from the shifted eigenvalues of A (or A + eps I) (exact term comparison). NOT decided: finiteness, symmetry, the eigenvalue bound, commutation, equivariance of the floating-point result.",
         "The scalar shadow abstracts the elementwise tensor update of the eigenvalue vector by the same update on one eigenvalue.",
     ),
     "C13": (
@@ -86,13 +86,13 @@ CLAIMS = {
     "C14": (
         "DESIGN.md §3 C14",
         "purity / determinism analysis of the three _distribute_buffer_sizes copies (rank taint + structural checks of the stable sort and the (load, rank) heap), def-use of owner ranks into the distributor selector, points-to view-only derivation of all buffer lists, sibling differ over the three copies",
-        "Static: the assignment depends on global block sizes and group size only (no rank-variant or order-free value, stable largest-first order over enumerate, heap of (load, rank) tuples whose load increment is the size recorded for the block); a block's owner is the rank whose rank in the communication group equals the assigned rank, owners come from the assignment, local lists are the selector-compressed global lists and state is allocated over local lists; every per-block buffer is a view of the single gather buffer and the local send buffer is the rank's own split, with one size expression; the DDP/HSDP/HybridShard copies (two of which no runnable test touches) are canonically equal. NOT decided: the 4/3 and load-difference bounds, 64-byte alignment arithmetic, non-overlap of offsets.",
+        "Static: the assignment depends on global block sizes and group size only (no rank-variant or order-free value, stable largest-first order over enumerate, heap of (load, rank) tuples whose load increment is the size recorded for the block); a block's owner is the rank whose rank in the communication group equals the assigned rank, owners come from the assignment, local lists are the selector-compressed global lists and state is allocated over local lists; every per-block buffer is a view of the single gather buffer and the local send buffer is the rank's own split, with one size expression; the aligned size is the smallest multiple of 64 >= the byte size (complete residue system); one assignment decides both owners and buffer layout; the DDP/HSDP/HybridShard copies (two of which no runnable test touches) are canonically equal. NOT decided: the 4/3 and load-difference bounds, non-overlap of offsets for all size sequences.",
         "Sibling agreement is a cross-check: an edit applied consistently to all three copies passes it; trusts Python's sort stability and heapq tuple ordering.",
     ),
     "C15": (
         "DESIGN.md §3 C15",
         "points-to view-only derivation (strict polarity) of the recovered blocks, CFG/AST guard structure of the recursive helper, sibling differ FSDP~HSDP",
-        "Static: every block returned by split-tensor-block recovery shares storage with the given shard (only narrow/view on the path, through the recursion), pieces are concatenated left+center+right, a non-flat shard raises first, an empty range yields no blocks, the last dimension returns the block, the outer routine returns only the helper's result, every recursive call increases `dimension`, the whole-block descent is taken only under strict start > end, and the two copies agree. NOT decided: that the pieces partition the range into slabs of the stated form and are minimal in number (integer arithmetic over all shapes and ranges).",
+        "Static: every block returned by split-tensor-block recovery shares storage with the given shard (only narrow/view on the path, through the recursion), pieces are concatenated left+center+right, a non-flat shard raises first, an empty range yields no blocks, the last dimension returns the block, the outer routine returns only the helper's result, every recursive call increases `dimension`, the whole-block descent is taken only under strict start > end, the integer expressions of one split (center = [ceil(start/size)*size, floor(end/size)*size), offsets and lengths of the three pieces, recursion ranges) are exact on complete small boxes, and the two copies agree. NOT decided: minimality of the number of pieces and the composition of the recursion over all shapes.",
         "Trusts the torch view-operation table (narrow, view are views; reshape/clone/indexing are not).",
     ),
     "C16": (
